@@ -28,13 +28,13 @@ func c19(c *core.Ctx) {
 
 	var gen *ssa.Function
 	for _, fn := range p.LibFuncs(genPkg) {
-		if fn.Parent() == nil && len(core.CallsIn(fn, func(_ *ssa.Call, ci core.CallInfo) bool { return ci.Name == "makeTemplate" })) > 0 {
+		if fn.Parent() == nil && len(core.CallsIn(fn, isTemplateMaker)) > 0 {
 			gen = fn
 		}
 	}
 	if gen == nil {
 		c.Rule("R0", "generator exists", 1)
-		c.Missing("stub generator function (uses makeTemplate) in " + genPkg)
+		c.Missing("stub generator function (renders constant text/template texts) in " + genPkg)
 		c.EndRule()
 		return
 	}
@@ -121,7 +121,7 @@ func c19(c *core.Ctx) {
 			c.Ok(gk+":index-read-before-increment", cnt.Pos(), "the data field receives the loop-carried value itself (before the branch increments it)")
 			// three branches exist
 			seen := map[string]bool{}
-			for _, mt := range core.CallsIn(gen, func(_ *ssa.Call, ci core.CallInfo) bool { return ci.Name == "makeTemplate" }) {
+			for _, mt := range core.CallsIn(gen, isTemplateMaker) {
 				seen[branchOf(mt)] = true
 			}
 			c.Check(seen["client-or-bidi"] && seen["server-stream"] && seen["unary"] && !seen["?"], gk+":branches", gen.Pos(), "one template per call shape: client/bidi, server-stream, unary", fmt.Sprintf("templates are not selected by the streaming flags as client/bidi | server-stream | unary (found %v)", keysOf(seen)))
@@ -174,7 +174,7 @@ func c19(c *core.Ctx) {
 		}
 		c.Check(feed["ServiceName"] == "GetFullyQualifiedName" && feed["MethodName"] == "GetName", gk+":data:names", gen.Pos(), "ServiceName ← sd.GetFullyQualifiedName(), MethodName ← md.GetName()", fmt.Sprintf("the path components are fed from %q and %q (want the fully-qualified service name and the method's proto name)", feed["ServiceName"], feed["MethodName"]))
 		c.Check(strings.Contains(feed["RequestType"], "GetOutputType"), gk+":data:output-type", gen.Pos(), "the type allocated by the unary stub is the method's OUTPUT type", fmt.Sprintf("the message type allocated for the unary response is fed from %q, not from the method's output type", feed["RequestType"]))
-		for _, mt := range core.CallsIn(gen, func(_ *ssa.Call, ci core.CallInfo) bool { return ci.Name == "makeTemplate" }) {
+		for _, mt := range core.CallsIn(gen, isTemplateMaker) {
 			text, ok := core.ConstString(mt.Call.Args[len(mt.Call.Args)-1])
 			br := branchOf(mt)
 			key := gk + ":template:" + br
@@ -645,6 +645,20 @@ func constStr(info *types.Info, e ast.Expr) string {
 func constBool(info *types.Info, e ast.Expr) bool {
 	if tv, ok := info.Types[e]; ok && tv.Value != nil && tv.Value.Kind() == constant.Bool {
 		return constant.BoolVal(tv.Value)
+	}
+	return false
+}
+
+// isTemplateMaker: a call of a repo function/method that turns a constant
+// template text into a *text/template.Template (role of the template cache).
+func isTemplateMaker(call *ssa.Call, ci core.CallInfo) bool {
+	if ci.Static == nil || !strings.HasPrefix(ci.Pkg, core.ModulePath) || core.TypeStr(call.Type()) != "*text/template.Template" {
+		return false
+	}
+	for _, a := range call.Call.Args {
+		if _, ok := core.ConstString(a); ok {
+			return true
+		}
 	}
 	return false
 }
